@@ -121,6 +121,12 @@ def not_ (a : V) : V :=
   | .exc n => .exc n
   | a => .bool (!truthy a)
 
+/-- `bool(a)` -/
+def bool_ (a : V) : V :=
+  match a with
+  | .exc n => .exc n
+  | a => .bool (truthy a)
+
 /-- `a and b`: `b` is looked at only when `a` is truthy -/
 def and_ (a b : V) : V :=
   match a with
@@ -314,5 +320,77 @@ def isinstance_str (v : V) : V :=
   | .exc n => .exc n
   | .str _ => .bool true
   | _ => .bool false
+
+/-! ### heap mode
+
+  For methods that read an attribute after writing it (or after calling something that may write it) the environment is
+  threaded as state: `H.setattr` updates it, `H.call` hands it to an opaque callee of the outside world (`Ext`: name,
+  arguments, environment ↦ value, new environment), `H.oracle` asks the world a question that changes nothing. -/
+
+/-- the world outside the translated core -/
+abbrev Ext := String → List V → Env → V × Env
+
+def upd (env : Env) (k : String) (v : V) : Env := fun p => if p = k then v else env p
+
+namespace H
+
+inductive Res where
+  | ok (v : V) (env : Env) (effs : List Eff)
+  | raised (exc : String) (env : Env) (effs : List Eff)
+
+def ret (v : V) (env : Env) (effs : List Eff) : Res :=
+  match v with
+  | .exc n => .raised n env effs
+  | v => .ok v env effs
+
+def letv (v : V) (env : Env) (effs : List Eff) (k : V → Res) : Res :=
+  match v with
+  | .exc n => .raised n env effs
+  | v => k v
+
+def cond (c : V) (env : Env) (effs : List Eff) (a b : Res) : Res :=
+  match c with
+  | .exc n => .raised n env effs
+  | c => if truthy c then a else b
+
+/-- `self.<path> = v` -/
+def setattr (path : String) (v : V) (env : Env) (effs : List Eff) (k : Env → List Eff → Res) : Res :=
+  match v with
+  | .exc n => .raised n env effs
+  | v => k (upd env path v) (effs ++ [{ name := "set " ++ path, args := [v] }])
+
+/-- a recorded effect that leaves the environment alone -/
+def eff (name : String) (args : List V) (env : Env) (effs : List Eff) (k : List Eff → Res) : Res :=
+  match firstExc args with
+  | some n => .raised n env effs
+  | Option.none => k (effs ++ [{ name := name, args := args }])
+
+/-- an opaque call into the world: its value, and whatever it did to the environment -/
+def call (ext : Ext) (name : String) (args : List V) (env : Env) (effs : List Eff) (k : V → Env → List Eff → Res) : Res :=
+  match firstExc args with
+  | some n => .raised n env effs
+  | Option.none =>
+    match (ext name args env).1 with
+    | .exc n => .raised n (ext name args env).2 (effs ++ [{ name := "call " ++ name, args := args }])
+    | v => k v (ext name args env).2 (effs ++ [{ name := "call " ++ name, args := args }])
+
+/-- a question to the world that changes nothing -/
+def oracle (ext : Ext) (name : String) (args : List V) (env : Env) : V :=
+  match firstExc args with
+  | some n => .exc n
+  | Option.none => (ext name args env).1
+
+def bind (r : Res) (k : V → Env → List Eff → Res) : Res :=
+  match r with
+  | .ok v env effs => k v env effs
+  | .raised n env effs => .raised n env effs
+
+/-- the value of an effect-free translated function used inside an expression -/
+def val (r : Res) : V :=
+  match r with
+  | .ok v _ _ => v
+  | .raised n _ _ => .exc n
+
+end H
 
 end Py
